@@ -60,6 +60,75 @@ def run(tier, seed, replay=None):
             rep.sample(seg)
             break
     rep.sample(events[0:3])
+
+    # spec -> impl: every maximal behaviour of the model for tiny constants (and a simulated sample for larger ones)
+    # is replayed through the hook points of the real code
+    import re
+    configs = [(0, 2, 0, None), (1, 2, 0, None), (3, 2, 0, None), (2, 3, 0, None)]
+    if tier == "thorough":
+        configs += [(4, 2, 1, None), (3, 3, 0, 3000), (5, 3, 1, 3000), (6, 4, 0, 2000)]
+    else:
+        configs += [(3, 3, 0, 400)]
+    scheds = []
+    for (nd, pl, th, sim) in configs:
+        cfgp = os.path.join(WORK, "cfg", f"sched_{nd}_{pl}_{th}.cfg")
+        os.makedirs(os.path.dirname(cfgp), exist_ok=True)
+        with open(cfgp, "w") as f:
+            f.write(f"SPECIFICATION SSpec\nCONSTANTS\n  MaxDays = 6\n  MaxPll = 4\n  MaxThr = 3\n  NoDropTx = FALSE\n"
+                    f"  NDays = {nd}\n  Pll = {pl}\n  Thr = {th}\nINVARIANTS Emit NoPanic ResultCorrect\nCHECK_DEADLOCK FALSE\n")
+        r = tlc("ParRangeSched", cfgp, workers=1, timeout=900, heap="6g",
+                simulate=(f"num={sim}" if sim else None), extra=(["-depth", "60", "-seed", str(seed)] if sim else None))
+        if not r.ok and not sim:
+            log(r.output[-2000:])
+            raise ToolError(f"ParRangeSched {nd},{pl},{th} failed: {r.error}")
+        if not sim:
+            rep.add_tlc(r)
+        seen = set()
+        for p in r.prints:
+            p = p.strip('"').replace('\\"', '"')
+            if not p.startswith('<<"SCHED"'):
+                continue
+            steps = [[a, int(b)] for a, b in re.findall(r'<<"(\w+)", (\d+)>>', p)]
+            key = json.dumps(steps)
+            if key not in seen:
+                seen.add(key)
+                scheds.append([nd, pl, th, steps])
+    if len(scheds) < 1000:
+        raise ToolError(f"only {len(scheds)} schedules emitted by the model")
+    sfile = os.path.join(wd, "sched.json")
+    with open(sfile, "w") as f:
+        json.dump(scheds, f)
+    trace2 = os.path.join(wd, "trace_replay.ndjson")
+    info2 = harness(["c15s", "--out", trace2, "--sched", sfile, "--seed", seed], timeout=3000)
+    events2 = read_trace(trace2)
+    resets2 = [i + 1 for i, e in enumerate(events2) if e["ev"] == "reset"]
+
+    def resync2(idx):
+        nxt = [r0 for r0 in resets2 if r0 > idx]
+        return nxt[0] if nxt else info2["events"] + 1
+
+    bad2, st2, tr2, matched2 = validate_trace("ParRangeTrace", "ParRangeTrace.cfg", trace2, info2["events"], resync=resync2,
+                                              max_violations=8)
+    rep.states += st2
+    rep.transitions += tr2
+    rep.traces += len(scheds) - len(bad2)
+    rep.evaluations += len(scheds)
+    rep.extra["schedules_replayed"] = len(scheds)
+    rep.extra["schedules_followed_exactly"] = info2["followed"]
+    rep.extra["schedules_unrealised"] = info2["unrealised"]
+    rep.sample({"replayed_schedule": scheds[len(scheds) // 2]})
+    if info2["followed"] < 0.9 * len(scheds):
+        raise ToolError(f"only {info2['followed']} of {len(scheds)} model schedules could be followed by the real code: spec and hooks disagree")
+    for idx in bad2:
+        e = events2[idx - 1]
+        r0 = max([x for x in resets2 if x <= idx] or [1])
+        run_ev = events2[r0 - 1]
+        inv = getattr(validate_trace, "invariants", {}).get(idx)
+        what = f"schedule replay (days={run_ev['n']} workers={run_ev['p']} threshold={run_ev['t']}): event '{e['ev']}' "
+        what += f"violates invariant {inv}" if inv else "is not a step of ParRange"
+        if e.get("out") in ("hang", "panic"):
+            what += f" (call ended in {e['out']})"
+        rep.violation(what, {"run": run_ev, "event": e}, {"event_index": idx, "events_of_run": events2[r0 - 1:idx]})
     rep.assumptions = ["std::sync::mpsc is FIFO and recv() errs exactly when the queue is empty and all Senders are dropped; thread::scope joins all threads",
                        "the ordering lock of the hooks serialises sends and drop(tx) with the logged events (this constrains, but does not change, the schedules the code can take)",
                        "value equality of the parallel and sequential maps is computed by the harness with the library's PartialEq"]
